@@ -46,8 +46,9 @@ def stmt_prefix(s):
         return f'DO {stmt_prefix(s[1])} {E1.rp(s[2])}'
     if k == 'SW':
         return f'SW {E1.rp(s[1])} {stmt_prefix(s[2])}'
-    if k == 'CASE':
-        return f'CASE {s[1] - (1 << 64) if s[1] >= 1 << 63 else s[1]} {stmt_prefix(s[2])}'      # the constant as a C long
+    if k == 'CASE':     # ('CASE', lo, hi, stmt); the constants as C longs
+        aslong = lambda v: v - (1 << 64) if v >= 1 << 63 else v
+        return f'CASE {aslong(s[1])} {aslong(s[2])} {stmt_prefix(s[3])}'
     if k == 'DEF':
         return f'DEF {stmt_prefix(s[1])}'
     raise ValueError(s)
@@ -84,7 +85,9 @@ def stmt_c(s, salt=0):
     if k == 'SW':
         return f'switch ({E1.tie_c(s[1])}) {stmt_c(s[2], salt + 1)}'
     if k == 'CASE':
-        return f'case {E1.clit(s[1])}: {stmt_c(s[2], salt + 1)}'
+        if s[1] == s[2]:
+            return f'case {E1.clit(s[1])}: {stmt_c(s[3], salt + 1)}'
+        return f'case {E1.clit(s[1])} ... {E1.clit(s[2])}: {stmt_c(s[3], salt + 1)}'
     if k == 'DEF':
         return f'default: {stmt_c(s[1], salt + 1)}'
     raise ValueError(s)
@@ -189,8 +192,8 @@ class FunGen:
         return gen_safe(rng, depth, self.tys, readable, writable)
 
     def case_value(self, P, used):
-        """a case constant in the range of the promoted controlling type `P` (None: type unknown, small constants only), not
-        used yet; returned as (value of the constant, its value as the C `long` parse.c reads)"""
+        """a case constant or GNU range in the range of the promoted controlling type `P` (None: type unknown, small constants
+        only), disjoint from the ones used; `used` is a list of (lo, hi)"""
         rng = self.rng
         if P is None:
             cands = [0, 1, 2, 3, 4, 5, 6, 7]
@@ -200,10 +203,19 @@ class FunGen:
                                  4294967295, 4294967296, 4294967297, -4294967296, -4294967295, 9223372036854775807,
                                  -9223372036854775807, 9223372036854775808, 18446744073709551615] if lo <= v <= hi]
         for _ in range(20):
-            v = rng.choice(cands)
-            if v not in used:
-                used.add(v)
-                return v
+            a = rng.choice(cands)
+            b = a
+            if rng.random() < 0.3:
+                b = rng.choice(cands) if rng.random() < 0.5 else a + rng.choice([1, 2, 5, 100, 70000, 5000000000])
+                if P is not None and not (E1.tmin(P) <= b <= E1.tmax(P)):
+                    b = a
+                if P == 'u64' and (a < (1 << 63)) != (b < (1 << 63)):
+                    b = a        # recorded latitude of C03: an unsigned long range crossing 2^63
+                if b < a:
+                    a, b = b, a
+            if all(b < x or y < a for x, y in used):
+                used.append((a, b))
+                return a, b
         return None
 
     def switch(self, depth, level, inloop):
@@ -218,14 +230,14 @@ class FunGen:
         else:
             e, T = self.expr(rng.randrange(0, 3), cond=True), None
         P = None if T is None else ('u32' if T == 'u32' else T if T in ('i64', 'u64') else 'i32')
-        used, items, have_default = set(), [], False
+        used, items, have_default = [], [], False
         for _ in range(rng.randrange(1, 6)):
             st = self.stmt(max(depth - 1, 0), level, inloop, True)
             y = rng.random()
             if y < 0.55:
                 v = self.case_value(P, used)
                 if v is not None:
-                    st = ('CASE', v, st)
+                    st = ('CASE', v[0], v[1], st)
             elif y < 0.7 and not have_default:
                 have_default = True
                 st = ('DEF', st)
@@ -235,9 +247,9 @@ class FunGen:
                 v = self.case_value(P, used)
                 if v is not None:
                     if not have_default and rng.random() < 0.5:
-                        st, have_default = ('CASE', v, ('DEF', st)), True
+                        st, have_default = ('CASE', v[0], v[1], ('DEF', st)), True
                     else:
-                        st = ('IF', ('V', 0), ('CASE', v, st), ('SKIP',))
+                        st = ('IF', ('V', 0), ('CASE', v[0], v[1], st), ('SKIP',))
             items.append(st)
         body = ('SKIP',)
         for it in reversed(items):
@@ -349,14 +361,17 @@ def fixed_functions():
     out.append((['i8', 'i64', 'u32', 'i32'], 'i64', [-2, 4294967297, 3, 0],
         chain(('X', ('SET', 3, L(3))),
               ('WHILE', ('B', 'gt', ('POSTDEC', 3), L(0)),
-               chain(('SW', V(0), chain(('CASE', 1, ('X', ('SET', 1, L(5)))), ('CASE', -2, ('X', ('POSTINC', 1))), ('BRK',),
-                                        ('DEF', ('X', ('SET', 1, L(9)))), ('CASE', 127, ('X', ('SET', 2, ('L', 'u32', 1)))))),
-                     ('SW', V(1), chain(('CASE', 4294967298, ('X', ('OPSET', 'add', 2, ('L', 'u32', 2)))), ('CONT',),
-                                        ('CASE', 7, ('X', ('SET', 2, ('L', 'u32', 2)))),
-                                        ('CASE', -9223372036854775807, ('SKIP',)))),
+               chain(('SW', V(0), chain(('CASE', 1, 1, ('X', ('SET', 1, L(5)))), ('CASE', -2, -2, ('X', ('POSTINC', 1))), ('BRK',),
+                                        ('DEF', ('X', ('SET', 1, L(9)))), ('CASE', 100, 2147483647, ('X', ('SET', 2, ('L', 'u32', 1)))),
+                                        ('CASE', -2147483648, -100, ('X', ('SET', 2, ('L', 'u32', 4)))))),
+                     ('SW', V(1), chain(('CASE', 4294967298, 4294967298, ('X', ('OPSET', 'add', 2, ('L', 'u32', 2)))), ('CONT',),
+                                        ('CASE', 7, 4294967296, ('X', ('SET', 2, ('L', 'u32', 2)))),
+                                        ('CASE', -9223372036854775807, -5000000000, ('SKIP',)),
+                                        ('CASE', 4294967299, 9223372036854775807, ('SKIP',)))),
                      ('X', ('POSTINC', 0)))),
-              ('SW', V(2), chain(('CASE', 4294967295, ('X', ('SET', 1, L(3)))), ('DEF', ('SKIP',)))),
-              ('SW', ('CAST', 'u64', V(0)), chain(('CASE', 18446744073709551615, ('X', ('PREINC', 1))))),
+              ('SW', V(2), chain(('CASE', 3000000000, 4294967295, ('X', ('SET', 1, L(3)))), ('DEF', ('SKIP',)))),
+              ('SW', ('CAST', 'u64', V(0)), chain(('CASE', 18446744073709551615, 18446744073709551615, ('X', ('PREINC', 1))),
+                                                 ('CASE', 9223372036854775808, 18446744073709551613, ('X', ('PREDEC', 1))))),
               ('RET', ('B', 'add', V(1), V(2))))))
     return out
 
